@@ -1,3 +1,4 @@
+pub mod c03;
 pub mod c04;
 pub mod c05;
 pub mod c10;
@@ -8,6 +9,7 @@ use crate::core::Prop;
 
 pub fn by_id(id: &str) -> Option<Box<dyn Prop>> {
     match id {
+        "C03" => Some(Box::new(c03::C03)),
         "C04" => Some(Box::new(c04::C04)),
         "C05" => Some(Box::new(c05::C05)),
         "C10" => Some(Box::new(c10::C10)),
